@@ -40,6 +40,8 @@ func checkC05(c *Ctx) {
 		tilingCheck(c, "C05-K1", f, k1)
 	}
 	labelNameCap(c, "C05-K9")
+	// compressed names are read as RFC 1035 §4.1.4 says (pointer test, 14-bit offset, framing): shared with C19-K3
+	c19Decoder(c)
 	r.Count("C05-K1-decoders", len(decs))
 	r.Expect("C05-K1-decoders", 45)
 	e2CheckLayouts(c, "C05-K6", func(name string, f *ssa.Function) bool {
